@@ -84,6 +84,8 @@ def check(pid, tier, lines, gen_counts):
         _need(out, "default frames: (frame shape, margin 0..16) sweeps over all 40 versions", len([k for k in pref("frame:") if int(k.split(":")[2]) <= 16]), 51)
     if pid == "C19":
         _need(out, "TLC-exported fault behaviours replayed", len({k.split(":", 2)[2] for k in pref("file:")}), gen_counts.get("fileio", 0))
+    if pid == "C19":
+        _need(out, "TLC-exported pairs of concurrent calls replayed", len({k.split(":")[1] for k in pref("fileconc:")}), gen_counts.get("fileconc", 0))
     if pid == "C17":
         _need(out, "TLC-exported setter programs replayed", sum(v for k, v in t.items() if k.startswith("wasmgen:")), gen_counts.get("wasm", 0))
     if pid == "C14":
